@@ -1422,3 +1422,4 @@ def replay(ctx, payload):
     eval_cases(ctx, [payload["case"]])
 THEOREMS += ['gen_links_opposite', 'gen_links_from_vector']   # translator tie: generated function bodies = model (Props/C11Gen.lean)
 THEOREMS += ['gen_links_to_vector', 'gen_links_to_vector_neg', 'gen_mesh_path', 'gen_concentric_hexagons']   # translator tie, second round (Props/C11Gen.lean)
+THEOREMS += ['gen_machine_contains_chip', 'gen_machine_contains_link']   # translator tie, fourth round (Props/C11Gen.lean)
